@@ -5,7 +5,7 @@ from pysym import values as V
 from pysym.values import G, SInt, SBool, bvv, zt, zb, Unsupported
 from vlib.ob import Ob, add
 from vlib import oracle as O
-from vlib.oracle import B, canonical, is_tuple, FZERO, FNAN, FINF, FNINF
+from vlib.oracle import B, canonical, is_tuple, value_matches, FZERO, FNAN, FINF, FNINF
 from checks.fam_arith import finish, wbump, mk_tuple, FALSE, TRUE, E30, SPECIALS
 
 FONE = (0, 1, 0, 1)
@@ -200,3 +200,120 @@ def kernel_bits_concrete(p, m):
     parts = list(r) if (isinstance(r, tuple) and len(r) == 2 and isinstance(r[0], tuple)) else [r]
     bad = [c for c in parts if not O.canonical_concrete(tuple(c), prec)]
     return not bad, '%s at prec %d returned a mantissa of %s bits' % (case, prec, [c[3] for c in parts])
+
+
+# ------------------------------------------------------------------------------ special values that are multiples of pi
+def _pi_want(fn, args):
+    """(sign, shift) meaning sign * pi * 2**shift, or 'zero' / 'nan' -- the documented limits"""
+    if fn == 'mpf_atan':
+        return {'inf': (1, -1), 'ninf': (-1, -1), 'huge': (1, -1), 'nhuge': (-1, -1)}[args[0]]
+    if fn == 'mpf_acos':
+        return {'none': (1, 0)}[args[0]]
+    y, x = args
+    if y in ('inf', 'ninf'):
+        if x in ('inf', 'ninf'):
+            return 'nan'
+        return (1, -1) if y == 'inf' else (-1, -1)
+    if y == 'zero':
+        return (1, 0) if x in ('neg', 'ninf') else 'zero'
+    s = 1 if y == 'pos' else -1
+    if x == 'inf':
+        return 'zero'
+    if x == 'ninf':
+        return (s, 0)
+    if x == 'zero':
+        return (s, -1)
+    raise Unsupported('not a special case')
+
+
+def pi_special(p):
+    """special-value branches that return a multiple of pi (atan2 on the axes and at infinities, atan(+-inf) and atan of
+    huge arguments, acos(-1)): with mpf_pi replaced by an ARBITRARY constant in [2, 4) that is not representable at the working
+    precision -- stub: mpf_pi(prec, rnd) returns its floor F or its ceiling F+1 at `prec` bits according to rnd, either of
+    them for nearest -- the result is sign * (that constant rounded in the direction `rnd` asks for the SIGNED value) * 2**k.
+    This is what interval code relies on: floor(-pi/2) must be -(ceil(pi)/2)."""
+    from mpmath.libmp import libelefun, libmpf
+    from pysym.engine import NORMAL
+    fn, args, prec, rnd = p['fn'], p['args'], p['prec'], p['rnd']
+    ob = Ob(wbump(p, prec + 70), timeout_s=p.get('_t', 60))
+    F = ob.int('F', 1 << (prec - 1), (1 << prec) - 2)
+    pick = ob.bit('nearest_is_ceiling')
+    C = V.binop(__import__('operator').add, F, 1)
+    N = V.merge(zt(pick) == B(1), C, F)
+    e = 2 - prec
+    calls = []
+
+    def m_pi(eng, st, a, kw, fr):
+        pr = a[0] if a else kw.get('prec')
+        r = a[1] if len(a) > 1 else kw.get('rnd', 'd')
+        if isinstance(pr, SInt) or pr != prec:
+            raise Unsupported('mpf_pi called with a precision other than the working precision (%r)' % (pr,))
+        calls.append(r)
+        k = {'f': F, 'd': F, 'c': C, 'u': C, 'n': N}[r]
+        return eng.call(st, libmpf.from_man_exp, [k, e], {}, fr)
+    ob.eng.models[libelefun.mpf_pi] = m_pi
+
+    def mk(kind, name):
+        if kind in SPECIALS:
+            return SPECIALS[kind]
+        if kind == 'one':
+            return FONE
+        if kind == 'none':
+            return FNONE
+        if kind in ('pos', 'neg'):
+            return ob.mpf(name, 5, sign=0 if kind == 'pos' else 1)
+        if kind in ('huge', 'nhuge'):      # |x| >= 2**(prec+21): "essentially infinity" for atan
+            return ob.mpf(name, 5, exp=ob.int(name + '_exp', prec + 17, prec + 60), sign=0 if kind == 'huge' else 1)
+        raise Unsupported(kind)
+    argv = [mk(k, 'a%d' % i) for i, k in enumerate(args)]
+    outs = ob.run(getattr(libelefun, fn), argv + [prec, rnd])
+    want = _pi_want(fn, args)
+    NEG = {'f': 'c', 'c': 'f', 'd': 'd', 'u': 'u', 'n': 'n'}
+
+    def good(val, st):
+        if not (isinstance(val, tuple) and len(val) == 4):
+            return False
+        if want == 'zero':
+            return is_tuple(val, FZERO)
+        if want == 'nan':
+            return is_tuple(val, FNAN)
+        sgn, sh = want
+        r = rnd if sgn > 0 else NEG[rnd]
+        K = {'f': F, 'd': F, 'c': C, 'u': C, 'n': N}[r]
+        return value_matches(val, z3.BoolVal(sgn < 0), zt(K), B(e + sh), prec + 2, prec)
+    return finish(ob, ob.prove(outs, good))
+
+
+def pi_special_concrete(p, m):
+    """native replay against the real mpf_pi: the result must lie on the side of the exact value that `rnd` prescribes and
+    be one of the two neighbours (pi bracketed by a 3000-bit fixed-point value)"""
+    from fractions import Fraction
+    from mpmath.libmp import libelefun, libmpf
+    fn, args, prec, rnd = p['fn'], p['args'], p['prec'], p['rnd']
+
+    def mk(kind, i):
+        if kind in SPECIALS:
+            return SPECIALS[kind]
+        if kind == 'one':
+            return FONE
+        if kind == 'none':
+            return FNONE
+        man = m.get('a%d_man' % i, 17)
+        exp = m.get('a%d_exp' % i, 0)
+        return (0 if kind in ('pos', 'huge') else 1, man, exp, 5)
+    argv = [mk(k, i) for i, k in enumerate(args)]
+    r = getattr(libelefun, fn)(*argv, prec, rnd)
+    want = _pi_want(fn, args)
+    if want == 'zero':
+        return tuple(r) == FZERO, '%s%r = %r, expected 0' % (fn, tuple(args), r)
+    if want == 'nan':
+        return tuple(r) == FNAN, '%s%r = %r, expected nan' % (fn, tuple(args), r)
+    sgn, sh = want
+    lo = Fraction(libelefun.pi_fixed(3000), 1 << 3000)
+    hi = lo + Fraction(1, 1 << 2999)
+    elo, ehi = (lo * Fraction(2) ** sh, hi * Fraction(2) ** sh) if sgn > 0 else (-hi * Fraction(2) ** sh, -lo * Fraction(2) ** sh)
+    got = O.frac_of(r)
+    ok_lo, d1 = O.check_rounded(r, elo, prec, rnd)
+    ok_hi, d2 = O.check_rounded(r, ehi, prec, rnd)
+    ok = ok_lo and ok_hi
+    return ok, '%s%r at prec %d, rounding %s = %s; the exact value %s*pi*2**%d must round to %s' % (fn, tuple(args), prec, rnd, got, '-' if sgn < 0 else '', sh, d1 or d2)
